@@ -35,6 +35,8 @@ type TenantSpec struct {
 	K      int    `json:"k,omitempty"`      // packets carried in 188+K bytes
 	Reader string `json:"reader,omitempty"` // seekable (default) | bufio | plain
 	Trunc  int    `json:"trunc,omitempty"`  // > 0: the tenant's stream is cut after Trunc bytes (a short capture)
+	// RewindAt > 0: the tenant calls Rewind once before its RewindAt-th call (seekable readers)
+	RewindAt int `json:"rewind_at,omitempty"`
 }
 
 // SchedPlan decides who runs next at every yield.
@@ -129,6 +131,10 @@ func genTenant(r *core.PRNG) TenantSpec {
 	if cfg.ES > 2 {
 		cfg.ES = 2
 	}
+	rew := r.Chance(1, 3)
+	if rew {
+		cfg.MultiSec, cfg.SI = true, true // units of several sections: data stay buffered between calls
+	}
 	t := TenantSpec{Kind: "demux", Model: GenModel(r, cfg)}
 	if r.Chance(2, 5) {
 		// other framings and readers, short captures: whatever a Demuxer keeps outside itself
@@ -139,6 +145,9 @@ func genTenant(r *core.PRNG) TenantSpec {
 		if r.Chance(1, 3) {
 			t.Trunc = []int{188 + t.K, 188 + t.K, r.Range(1, 187), r.Range(189, 192), 2*(188+t.K) - r.Range(1, 5)}[r.Intn(5)]
 		}
+	}
+	if rew && (t.Reader == "" || t.Reader == "seekable") {
+		t.RewindAt = r.Range(1, 14)
 	}
 	switch r.Pick(4, 1, 2) {
 	case 0:
@@ -342,6 +351,11 @@ func runTenant(spec *TenantSpec, yield func()) (res *tenantResult) {
 	for i := 0; i < npk*4+16; i++ {
 		if yield != nil {
 			yield()
+		}
+		if spec.RewindAt > 0 && i == spec.RewindAt && kind == "seekable" {
+			n, rerr := dmx.Rewind()
+			res.keys = append(res.keys, fmt.Sprintf("rewind:%d:%s", n, errClass(rerr)))
+			res.live = append(res.live, nil)
 		}
 		var err error
 		if api[i%len(api)] == "packet" {
